@@ -17,8 +17,8 @@ from .. import symx, util
 from ..front import AnalysisError, src
 
 EXPLANATION = __doc__
-ASSUMPTIONS = ['stochastic mass-action forms are compared on non-negative integer states, where '
-               'prod_{j<m} max(s-j,0) == prod_{j<m} (s-j)']
+ASSUMPTIONS = ['stochastic forms are compared with k*prod_i s_i*prod_{0<j<m_i} max(s_i-j,0) on a grid of integer and half-integer states '
+               '(0, 0.5, ..., 4): "zero when fewer than m copies are present" also for real states']
 
 MODES = ['get_propensity', 'get_volume_propensity', 'get_stochastic_propensity', 'get_stochastic_volume_propensity']
 MODE_NAME = {'get_propensity': 'deterministic', 'get_volume_propensity': 'volume',
@@ -189,9 +189,9 @@ def spec_forms(cls, roles):
         return {
             'get_propensity': [('A+B', distinct, {}, k * a * b), ('2A', same_c, same_v, k * a ** 2)],
             'get_volume_propensity': [('A+B', distinct, {}, k * a * b / V), ('2A', same_c, same_v, k * a ** 2 / V)],
-            'get_stochastic_propensity': [('A+B', distinct, {}, k * a * b), ('2A', same_c, same_v, k * a * (a - 1))],
+            'get_stochastic_propensity': [('A+B', distinct, {}, k * a * b), ('2A', same_c, same_v, k * a * sp.Max(a - 1, 0))],
             'get_stochastic_volume_propensity': [('A+B', distinct, {}, k * a * b / V),
-                                                 ('2A', same_c, same_v, k * a * (a - 1) / V)],
+                                                 ('2A', same_c, same_v, k * a * sp.Max(a - 1, 0) / V)],
         }
     if cls in ('PositiveHillPropensity', 'NegativeHillPropensity', 'PositiveProportionalHillPropensity',
                'NegativeProportionalHillPropensity'):
@@ -209,6 +209,39 @@ def spec_forms(cls, roles):
                 'get_volume_propensity': [('any', {}, {}, hill(s / V))],
                 'get_stochastic_volume_propensity': [('any', {}, {}, hill(s / V))]}
     raise AnalysisError('no specification for class %s' % cls)
+
+
+GRID = (0.0, 0.5, 1.0, 1.5, 2.0, 2.5, 4.0)
+
+
+def equal_on_state_grid(got, exp):
+    """Stochastic forms clamp factors at 0, so two terms can agree on integers and differ on real states: compare them on a grid of small
+    integer *and* half-integer values of every state entry (positive rationals for everything else).  -> (ok, witness)"""
+    import itertools as _it
+    import math as _math
+    got, exp = sp.sympify(got), sp.sympify(exp)
+    if got == exp:
+        return True, None
+    atoms = sorted(set(symx._atoms_outermost(got)) | set(symx._atoms_outermost(exp)), key=sp.default_sort_key)
+    st = [a for a in atoms if a.func == STATE]
+    other = [a for a in atoms if a.func != STATE]
+    syms = sorted((got.free_symbols | exp.free_symbols), key=lambda x: x.name)
+    if len(st) > 3:
+        raise AnalysisError('too many state entries for the grid comparison: %s' % st)
+    dummies = [sp.Dummy('x%d' % i) for i in range(len(st) + len(other))]
+    rep = dict(zip(st + other, dummies))
+    fg = sp.lambdify(dummies + syms, got.xreplace(rep), modules=[{'Max': max, 'Min': min}, 'math'])
+    fe = sp.lambdify(dummies + syms, exp.xreplace(rep), modules=[{'Max': max, 'Min': min}, 'math'])
+    fixed = [1.7 + 0.9 * i for i in range(len(other))] + [1.3 + 0.7 * i for i in range(len(syms))]
+    for vals in _it.product(GRID, repeat=len(st)):
+        args = list(vals) + fixed
+        try:
+            a, b = fg(*args), fe(*args)
+        except (ZeroDivisionError, ValueError, OverflowError):
+            continue
+        if not _math.isclose(a, b, rel_tol=1e-9, abs_tol=1e-12):
+            return False, {'point': {str(k_): v_ for k_, v_ in zip(st, vals)}, 'lhs': a, 'rhs': b}
+    return True, None
 
 
 def erase_max0(e):
@@ -283,7 +316,7 @@ def extract(ctx, cls, mode):
                 n.arg = ren[n.arg]
     env = {'volume': V, 'time': symx.possym('time')}
     cases = se.run(f, env)
-    return dc, f, cases
+    return dc, f, symx.split_piecewise(cases)
 
 
 def select_case(cases, cond_subs):
@@ -310,19 +343,60 @@ def select_case(cases, cond_subs):
     return hits[0]
 
 
+def feasible_cases(cases, subs):
+    """Cases whose path condition can hold under `subs` -> [(case, extra substitution)].  Conditions on index attributes are decided by
+    the scenario; a test of a parameter or state value against a constant (`if n == 1.0`) splits the domain: on its true side the
+    value is substituted, on its false side nothing is assumed."""
+    out = []
+    for c in cases:
+        extra = {}
+        feasible = True
+        for cond, truth in c.conds:
+            v = cond.xreplace(subs) if isinstance(cond, sp.Basic) else cond
+            v = sp.simplify(v) if isinstance(v, sp.Basic) else v
+            if v == sp.true or v == sp.false:
+                if (v == sp.true) != truth:
+                    feasible = False
+                    break
+                continue
+            if isinstance(v, (sp.Eq, sp.Ne)):
+                equal_side = truth if isinstance(v, sp.Eq) else (not truth)
+                if equal_side:
+                    a, b = v.lhs, v.rhs
+                    if b.is_number and not a.is_number:
+                        extra[a] = b
+                    elif a.is_number and not b.is_number:
+                        extra[b] = a
+                    else:
+                        raise AnalysisError('path condition %s cannot be turned into a substitution' % cond)
+                continue
+            raise AnalysisError('path condition %s is not decided by the reactant multiset' % cond)
+        if feasible:
+            out.append((c, extra))
+    if not out:
+        raise AnalysisError('no feasible case')
+    return out
+
+
 def check_formulas(ctx, cls, roles):
     specs = spec_forms(cls, roles)
     for mode in MODES:
         dc, f, cases = extract(ctx, cls, mode)
         where = ctx.loc('types', f)
         for (scn, csub, vsub, expected) in specs[mode]:
-            c = select_case(cases, csub)
-            got = c.value.xreplace(vsub)
+            cmpf = equal_on_state_grid if 'stochastic' in mode else symx.equal
+            ok, detail = True, ''
             exp = expected.xreplace(vsub)
-            if 'stochastic' in mode:
-                got, exp = erase_max0(got), erase_max0(exp)
-            ok, wit = symx.equal(got, exp)
-            detail = 'body executed: %s.%s returns %s%s' % (dc, mode, got, '; witness %s' % wit if wit else '')
+            for c, extra in feasible_cases(cases, csub):
+                got = c.value.xreplace(vsub).xreplace(extra)
+                ex_ = exp.xreplace(extra)
+                ok, wit = cmpf(got, ex_)
+                detail = 'body executed%s: %s.%s returns %s%s' % (
+                    (' under ' + ', '.join('%s = %s' % kv for kv in extra.items())) if extra else '', dc, mode, got, '; witness %s' % wit if wit else '')
+                if not ok:
+                    if extra:
+                        detail += '; the closed form gives %s there' % ex_
+                    break
             # boundary of the state domain: states are non-negative, the symbols above are positive.  A branch taken only at
             # state == 0 (`if X <= 0: return ...`) is compared with the closed form at 0, one state entry at a time.
             if ok and not csub and not vsub and any(c2.conds for c2 in cases):
@@ -330,14 +404,14 @@ def check_formulas(ctx, cls, roles):
                                 if isinstance(cd, sp.Basic)] or [set()])) if a.func == STATE}, key=str)
                 for a in atoms:
                     z = {a: sp.Integer(0)}
-                    cb = select_case(cases, z)
-                    gb, eb = cb.value.xreplace(z), expected.xreplace(z)
-                    if 'stochastic' in mode:
-                        gb, eb = erase_max0(gb), erase_max0(eb)
-                    okb, witb = symx.equal(gb, eb)
-                    if not okb:
-                        ok = False
-                        detail = 'at %s = 0 the body returns %s, the closed form gives %s%s' % (a, gb, eb, '; witness %s' % witb if witb else '')
+                    for cb, extra in feasible_cases(cases, z):
+                        gb, eb = cb.value.xreplace(z).xreplace(extra), expected.xreplace(z).xreplace(extra)
+                        okb, witb = cmpf(gb, eb)
+                        if not okb:
+                            ok = False
+                            detail = 'at %s = 0 the body returns %s, the closed form gives %s%s' % (a, gb, eb, '; witness %s' % witb if witb else '')
+                            break
+                    if not ok:
                         break
             ctx.ob('R1.1-formula', '%s/%s/%s' % (cls, MODE_NAME[mode], scn), ok, where,
                    '%s rate of %s (%s) must equal %s' % (MODE_NAME[mode], cls, scn, exp), detail)
@@ -383,15 +457,14 @@ def check_massaction(ctx):
                 e = k
                 for si, c in zip(s, cs):
                     for j in range(c):
-                        e = e * (si - j)
-                got = erase_max0(got)
+                        e = e * (sp.Max(si - j, 0) if j else si)
             else:
                 e = k
                 for si, c in zip(s, cs):
                     e = e * si ** c
             if 'volume' in mode:
                 e = e / V ** (order - 1)
-            ok, wit = symx.equal(got, e)
+            ok, wit = equal_on_state_grid(got, e) if 'stochastic' in mode else symx.equal(got, e)
             if not ok:
                 bad = (cs, got, e, wit)
                 break
